@@ -147,6 +147,7 @@ type Frame struct {
 	fnspecOuter bool
 	atInside bool
 	deferPCs []Term
+	evBlk   *ssa.BasicBlock // block of the instruction whose event (map update / lookup) is being checked
 }
 
 func (fx *FnExec) note(s string) { fx.notes[s] = true }
